@@ -965,6 +965,15 @@ class SVG:
 
         return self
 
+    def _remove_redundant_groups(self) -> bool:
+        self._update_etree()
+        removed = False
+        # children before parents
+        for group_el in reversed(self.xpath("//svg:g")):
+            removed |= _try_remove_group(group_el)
+        self.elements = None
+        return removed
+
     def remove_nonsvg_content(self, inplace=False):
         if not inplace:
             svg = self._clone()
@@ -1370,13 +1379,19 @@ class SVG:
 
         # Tidy up
         self.evenodd_to_nonzero_winding(inplace=True)
-        self.normalize_opacity(inplace=True)
         self.absolute(inplace=True)
-        self.round_floats(ndigits, inplace=True)
+        # Opacity pushed down from a removed group can make an inner group
+        # removable and its shapes invisible, and dropping shapes can leave
+        # groups that no longer need to exist: repeat until nothing changes
+        while True:
+            self.normalize_opacity(inplace=True)
+            self.round_floats(ndigits, inplace=True)
 
-        # https://github.com/googlefonts/picosvg/issues/269 remove empty subpaths *after* rounding
-        self.remove_empty_subpaths(inplace=True)
-        self.remove_unpainted_shapes(inplace=True)
+            # https://github.com/googlefonts/picosvg/issues/269 remove empty subpaths *after* rounding
+            self.remove_empty_subpaths(inplace=True)
+            self.remove_unpainted_shapes(inplace=True)
+            if not self._remove_redundant_groups():
+                break
 
         violations = self.checkpicosvg(
             allow_text=allow_text, drop_unsupported=drop_unsupported
